@@ -20,6 +20,8 @@ Strings == { Str(S(x)) : x \in { "NULL", "null", "True", "FALSE", "END", "end", 
                                  "a=b", "a,b", "(a)", "{a}", "<m>", "a;b", "a&b", "/* c */", "a/*b", "*/", "# c", "a#b", "x-", "-" } }
            \cup { Str(<<>>), Str(S("a") \o <<9>> \o S("b")), Str(S("a") \o LF \o S("b")), Str(S("a") \o <<13, 10>> \o S("b")),
                   Str(S("a-") \o LF \o S("b")), Str(S("x") \o <<11>> \o S("y")), Str(S("both ' and \"")), Str(<<1>>), Str(<<233>>), Str(<<176, 67>>), Str(<<8364>>),
+                  Str(S("about 5") \o <<160>> \o S("km wide")), Str(S("alpha") \o <<31>> \o S("beta gamma")), Str(S("x") \o <<28>> \o S(" y")),
+                  Str(S("5 - ") \o LF \o S("10")), Str(S("5 -") \o <<9>> \o LF \o S("  10")), Str(S("tab") \o <<9, 9>> \o S("tab")),
                   Str(S("word word word word word word word word word word word word word word word word word word word word")),
                   Str(S("aaa- bbb- ccc- ddd- eee- fff- ggg- hhh- iii- jjj- kkk- lll- mmm- nnn- ooo- ppp- qqq- rrr- sss- ttt- uuu- vvv- www- xxx")),
                   Str(S("a - b - c - d - e - f - g - h - i - j - k - l - m - n - o - p - q - r - s - t - u - v - w - x - y - z - a - b - c - d - e")),
@@ -61,6 +63,8 @@ Special == { Mod(<<Item("a", One), Item("a", IntV("2")), Item("A", IntV("3"))>>)
              Mod(<<Item("o", Obj(<<Item("g", Grp(<<Item("y", SetV(<<IntV("1"), IntV("2")>>))>>))>>)), Item("s", SeqV(<<Wa, Ws>>))>>),
              Mod(<<Item("ns:key", One), Item("^ptr", Qty(IntV("5"), "BYTES")), Item("a-b", One), Item("x.y", One), Item("lower", Wa)>>),
              Mod(<<Item("a_key_of_exactly_thirty_chars_", One), Item("a_key_of_thirty_one_characters_", One)>>),
+             Mod(<<Item("^pointer_key_of_30_characters_x", One)>>), Mod(<<Item("^pointer_key_of_31_characters_xy", One)>>),
+             Mod(<<Item("namespace_x:key_of_31_characters", One)>>), Mod(<<Item("a23456789012345678901234567890", Wa)>>),
              Mod(<<Item("o", Obj(<<Item("p", Obj(<<Item("q", Obj(<<Item("deep", Ws)>>))>>))>>))>>),
              Mod(<<Item("g-", Grp(<<Item("x", One)>>)), Item("o", Obj(<<Item("y", One)>>))>>),
              Mod(<<Item("k-", One), Item("k2", One)>>),
